@@ -232,6 +232,26 @@ type recorder struct {
 	failAt int // -1: never; the failAt-th call (0-based) and all later ones fail
 	calls  int
 	onCall func() // optional: called on every event (GC forcing, pointer classification)
+	// strings and keys handed over BY VALUE, as delivered (not copied) and as copied at delivery
+	// time: a Go string is immutable, so the two must still agree when the run is over (C15)
+	kept, clones []string
+}
+
+func (r *recorder) keep(s string) {
+	if len(r.kept) < 2000 {
+		r.kept = append(r.kept, s)
+		r.clones = append(r.clones, strings.Clone(s))
+	}
+}
+
+// aliasFlag reports the first by-value string that changed after it was delivered.
+func (r *recorder) aliasFlag() string {
+	for i := range r.kept {
+		if r.kept[i] != r.clones[i] {
+			return " ## ALIAS " + hx([]byte(r.clones[i])) + " -> " + hx([]byte(r.kept[i]))
+		}
+	}
+	return ""
 }
 
 func newRecorder(failAt int) *recorder { return &recorder{failAt: failAt} }
@@ -261,7 +281,10 @@ func (r *recorder) OnObjectStart(n int, bt structform.BaseType) error {
 	return r.add(event{kind: evObjStart, n: n, bt: bt})
 }
 func (r *recorder) OnObjectFinished() error { return r.add(event{kind: evObjEnd}) }
-func (r *recorder) OnKey(s string) error    { return r.add(event{kind: evKey, s: []byte(s)}) }
+func (r *recorder) OnKey(s string) error {
+	r.keep(s)
+	return r.add(event{kind: evKey, s: []byte(s)})
+}
 func (r *recorder) OnArrayStart(n int, bt structform.BaseType) error {
 	return r.add(event{kind: evArrStart, n: n, bt: bt})
 }
@@ -271,6 +294,7 @@ func (r *recorder) OnBool(b bool) error {
 	return r.add(event{kind: evBool, sc: scalar{kind: evBool, b: b}})
 }
 func (r *recorder) OnString(s string) error {
+	r.keep(s)
 	return r.add(event{kind: evStr, sc: scalar{kind: evStr, s: []byte(s)}})
 }
 func (r *recorder) OnInt8(i int8) error     { return r.add(numI(kInt8, int64(i))) }
@@ -341,95 +365,106 @@ func playScalar(v structform.Visitor, s scalar) error {
 	panic("bad scalar")
 }
 
+// mkSlice returns a slice of n elements with (deterministically) 0..3 elements of spare
+// capacity that hold junk: consumers must go by len, never by cap
+func mkSlice[T any](n int, junk T) []T {
+	c := n + (n*7+3)%4
+	a := make([]T, c)
+	for i := range a {
+		a[i] = junk
+	}
+	return a[:n]
+}
+
 func playXArr(v structform.ExtVisitor, e event) error {
 	n := len(e.elems)
 	switch e.bt {
 	case structform.BoolType:
-		a := make([]bool, n)
+		a := mkSlice[bool](n, true)
 		for i, s := range e.elems {
 			a[i] = s.b
 		}
 		return v.OnBoolArray(a)
 	case structform.StringType:
-		a := make([]string, n)
+		a := mkSlice[string](n, "\xaa")
 		for i, s := range e.elems {
 			a[i] = string(s.s)
 		}
 		return v.OnStringArray(a)
 	case structform.Int8Type:
-		a := make([]int8, n)
+		a := mkSlice[int8](n, 0x55)
 		for i, s := range e.elems {
 			a[i] = int8(s.i)
 		}
 		return v.OnInt8Array(a)
 	case structform.Int16Type:
-		a := make([]int16, n)
+		a := mkSlice[int16](n, 0x5555)
 		for i, s := range e.elems {
 			a[i] = int16(s.i)
 		}
 		return v.OnInt16Array(a)
 	case structform.Int32Type:
-		a := make([]int32, n)
+		a := mkSlice[int32](n, 0x55555555)
 		for i, s := range e.elems {
 			a[i] = int32(s.i)
 		}
 		return v.OnInt32Array(a)
 	case structform.Int64Type:
-		a := make([]int64, n)
+		a := mkSlice[int64](n, 0x5555555555555555)
 		for i, s := range e.elems {
 			a[i] = s.i
 		}
 		return v.OnInt64Array(a)
 	case structform.IntType:
-		a := make([]int, n)
+		a := mkSlice[int](n, 0x5555555555555555)
 		for i, s := range e.elems {
 			a[i] = int(s.i)
 		}
 		return v.OnIntArray(a)
 	case structform.ByteType:
-		a := make([]byte, n)
+		a := mkSlice[byte](n, 0xaa)
 		for i, s := range e.elems {
 			a[i] = byte(s.u)
 		}
 		return v.OnBytes(a)
 	case structform.Uint8Type:
-		a := make([]uint8, n)
+		a := mkSlice[uint8](n, 0xaa)
 		for i, s := range e.elems {
 			a[i] = uint8(s.u)
 		}
 		return v.OnUint8Array(a)
 	case structform.Uint16Type:
-		a := make([]uint16, n)
+		a := mkSlice[uint16](n, 0xaaaa)
 		for i, s := range e.elems {
 			a[i] = uint16(s.u)
 		}
 		return v.OnUint16Array(a)
 	case structform.Uint32Type:
-		a := make([]uint32, n)
+		a := mkSlice[uint32](n, 0xaaaaaaaa)
 		for i, s := range e.elems {
 			a[i] = uint32(s.u)
 		}
 		return v.OnUint32Array(a)
 	case structform.Uint64Type:
-		a := make([]uint64, n)
+		a := mkSlice[uint64](n, 0xaaaaaaaaaaaaaaaa)
 		for i, s := range e.elems {
 			a[i] = s.u
 		}
 		return v.OnUint64Array(a)
 	case structform.UintType:
-		a := make([]uint, n)
+		a := mkSlice[uint](n, 0xaaaaaaaaaaaaaaaa)
 		for i, s := range e.elems {
 			a[i] = uint(s.u)
 		}
 		return v.OnUintArray(a)
 	case structform.Float32Type:
-		a := make([]float32, n)
+		a := mkSlice[float32](n, float32(1.5))
 		for i, s := range e.elems {
 			a[i] = math.Float32frombits(uint32(s.u))
 		}
 		return v.OnFloat32Array(a)
 	case structform.Float64Type:
-		a := make([]float64, n)
+		a := mkSlice[float64](n, 2.5)
 		for i, s := range e.elems {
 			a[i] = math.Float64frombits(s.u)
 		}
